@@ -14,7 +14,7 @@ from .wire import ENTRIES, arg_token, dtags_token, script_token, hx, rand_val, r
 
 class MCase:
     def __init__(self, prefix, dtags, dcid, script, steps):
-        # steps: ("S",) | ("Z",) | ("I"|"T", kind, ty, v, key, tags) | ("G",) | ("GT",) | ("Q",) | ("QT",)
+        # steps: ("S",) | ("Z",) | ("I"|"T"|"U", kind, ty, v, key, tags) | ("G",) | ("GT",) | ("Q",) | ("QT",)
         # G/Q (get_global_default / is_global_default_set, T = on a fresh thread) are the model's PGet / PIsSet
         self.prefix, self.dtags, self.dcid, self.script, self.steps = prefix, dtags, dcid, script, steps
 
@@ -35,7 +35,7 @@ class MCase:
     # the shape wire.judge_call / wire.all_float_bits expect
     @property
     def calls(self):
-        return [("Q", s[1], s[2], s[3], s[4], [("t", k, x) for k, x in s[5]]) for s in self.steps if s[0] in ("I", "T")]
+        return [("Q", s[1], s[2], s[3], s[4], [("t", k, x) for k, x in s[5]]) for s in self.steps if s[0] in ("I", "T", "U")]
 
 
 def rand_tags(rng, n, mode):
@@ -60,7 +60,11 @@ def gen_cases(rng, n_random):
             for n in range(6):
                 steps.append(("I" if n % 2 == 0 else "T", kind, ty, rand_val(rng, ty), rand_str(rng, "clean", 1), rand_tags(rng, n, "clean")))
                 script.append(None if not deco or n % 3 else (rng.randrange(12), rng.randrange(1000)))
-            steps += [("Z",), ("I", kind, ty, rand_val(rng, ty), "late", rand_tags(rng, 1, "clean"))]
+            steps += [("Z",), ("I", kind, ty, rand_val(rng, ty), "late", rand_tags(rng, 1, "clean")),
+                      # ... and from a destructor that runs while its thread unwinds from a panic (U: only with a client set)
+                      ("U", kind, ty, rand_val(rng, ty), "unwinding", rand_tags(rng, 2, "clean"))]
+            script.append(None)
+            script.append(None if not deco else (rng.randrange(12), rng.randrange(1000)))
             if deco:
                 cases.append(MCase("pre.fix.", [("dk", "dv"), (None, "bare")], "cid", script, steps))
             else:
@@ -244,7 +248,7 @@ def check_C17(tier, seed):
             dist["entry_points"][ek] = dist["entry_points"].get(ek, 0) + 1
         dist["refused"] += o.count("eio:")
         dist["rejected_value"] += o.count("einv")
-        if any(s[0] in ("I", "T") for s in c.steps):
+        if any(s[0] in ("I", "T", "U") for s in c.steps):
             nt.add(case_hash(l))
     rep.cov["evaluations"] = dist["invocations"]
     rep.cov["distinct_nontrivial"] = len(nt)
